@@ -500,6 +500,47 @@ class Fn:
                     for (a, f) in place_fields(p):
                         yield (i, "r", a, f, t.get("ln"), p)
 
+    # ---- enum switches
+    def enum_switches(self, adt=None):
+        """[(bb, adt, place, {variant: target_bb}, otherwise_bb)] for switchInt on a discriminant
+        read in the same block"""
+        out = []
+        live = self.live_blocks_all()
+        for i in range(self.n):
+            if i not in live:
+                continue
+            t = self.term(i)
+            if t["k"] != "switch":
+                continue
+            l = op_local(t["on"])
+            if l is None:
+                continue
+            dis = None
+            for st in self.stmts(i):
+                if st["r"].get("k") == "discr" and st["d"]["l"] == l and not proj(st["d"]):
+                    dis = st["r"]
+            if dis is None or "adt" not in dis:
+                continue
+            if adt is not None and dis["adt"] != adt:
+                continue
+            m = {}
+            for v, tgt in t["tg"]:
+                name = dis["vs"].get(v)
+                if name is not None:
+                    m[name] = tgt
+            out.append((i, dis["adt"], dis["p"], m, t["else"]))
+        return out
+
+    def arm_region(self, targets, target):
+        """blocks reachable from `target` that are not reachable from any *other* arm target
+        (the arm's exclusive region)"""
+        mine = self.reachable_from([target])
+        others = set()
+        for t in set(targets):
+            if t != target:
+                others |= self.reachable_from([t])
+        return mine - others
+
     # ---- coarse intraprocedural may-derive slice
     def _flow_edges(self, through_calls):
         """local -> set(local) may-derive edges (cached)"""
@@ -575,6 +616,38 @@ class Fn:
         return S
 
 
+_FMT_ARG = re.compile(r"^core::fmt::rt::Argument::<'_>::new_(display|debug)::<(.+)>$")
+_TOSTRING = re.compile(r"^<(.+) as std::string::ToString>::to_string$")
+
+
+def strip_refs(ty):
+    ty = ty.strip()
+    while True:
+        if ty.startswith("&mut "):
+            ty = ty[5:].strip()
+        elif ty.startswith("&"):
+            ty = re.sub(r"^&('\w+ )?", "", ty).strip()
+        elif ty.startswith("std::boxed::Box<") and ty.endswith(">"):
+            ty = ty[len("std::boxed::Box<"):-1].strip()
+        elif ty.startswith("std::sync::Arc<") and ty.endswith(">"):
+            ty = ty[len("std::sync::Arc<"):-1].strip()
+        else:
+            return ty
+
+
+def fmt_targets(fr):
+    """Display/Debug impl bodies that a formatting call will run"""
+    da = fr.get("da") or ""
+    m = _FMT_ARG.match(da)
+    if m:
+        tr = "std::fmt::Display" if m.group(1) == "display" else "std::fmt::Debug"
+        return ["<%s as %s>::fmt" % (strip_refs(m.group(2)), tr)]
+    m = _TOSTRING.match(da)
+    if m:
+        return ["<%s as std::fmt::Display>::fmt" % strip_refs(m.group(1))]
+    return []
+
+
 # --------------------------------------------------------------------------- whole program
 
 class Facts:
@@ -598,6 +671,16 @@ class Facts:
             self._by_name = idx["by_name"]
         else:
             self._by_name = None
+
+    def raw_line(self, name):
+        """raw JSON text of a body (cheap substring pre-filter before parsing)"""
+        b = self.bodies
+        if hasattr(b, "offsets"):
+            off, ln = b.offsets[name]
+            b.fh.seek(off)
+            return b.fh.read(ln).decode("utf-8", "replace")
+        import json as _j
+        return _j.dumps(b[name], separators=(",", ":"))
 
     # ---- lookup
     def has(self, name):
@@ -667,7 +750,7 @@ class Facts:
                     for o in rv_operands(rv):
                         fnc = o.get("fn") if isinstance(o, dict) else None
                         if fnc:
-                            for nm in (fnc.get("r"), fnc["d"]):
+                            for nm in [fnc.get("r"), fnc["d"]] + fmt_targets(fnc):
                                 if nm in self.bodies:
                                     cg[name].add(nm)
                 t = bb["t"]
@@ -678,6 +761,10 @@ class Facts:
                     unknown.append((name, t.get("ln"), t.get("fty")))
                     continue
                 r = fr.get("r")
+                # formatting edges: Argument::new_display::<&T> / T::to_string() run <T as Display>::fmt
+                for tgt in fmt_targets(fr):
+                    if tgt in self.bodies:
+                        cg[name].add(tgt)
                 if fr.get("virt"):
                     for m in impls.get(fr["d"], []):
                         if m in self.bodies:
@@ -697,7 +784,7 @@ class Facts:
                 for o in t["args"]:
                     fnc = o.get("fn")
                     if fnc:
-                        for nm in (fnc.get("r"), fnc["d"]):
+                        for nm in [fnc.get("r"), fnc["d"]] + fmt_targets(fnc):
                             if nm in self.bodies:
                                 cg[name].add(nm)
         self._cg = cg
